@@ -56,6 +56,31 @@ fn main() {
             }
             std::process::exit(0);
         }
+        "debug-c06" => {
+            // fverif debug-c06 <fen> <depth> <later depth> <cut>... : interrupted searches then a completed one, engine info lines visible
+            let fen = args[2].clone();
+            let d: u8 = args[3].parse().unwrap();
+            let later: u8 = args[4].parse().unwrap();
+            let b = board::Board::new(&fen);
+            let mut s = search::Searcher::new();
+            for c in args[5..].iter() {
+                s.verif_timer().node_limit = Some(c.parse().unwrap());
+                let r = s.find_best_move(&b, d, None);
+                println!("deeper reuse so far {}", s.verif.tt_returned_deeper);
+                println!("interrupted at {} -> {:?} nodes {} tt entries {}", c, (r.0, r.1.map(|m| m.to_algebraic())), s.verif_nodes(), s.verif_tt_entries().len());
+                let h = s.verif_hash(&b);
+                for e in s.verif_tt_entries() {
+                    if e.hash_key == h { println!("  root entry: {:?}", e); }
+                }
+            }
+            s.verif_timer().node_limit = None;
+            let r = if std::env::var("FIXED").is_ok() { s.verif_search_fixed(&b, later) } else { s.find_best_move(&b, later, None) };
+            println!("completed depth {} -> {:?}; deeper reuse in total {}", later, (r.0, r.1.map(|m| m.to_algebraic())), s.verif.tt_returned_deeper);
+            let mut f = search::Searcher::new();
+            let r = f.find_best_move(&b, later, None);
+            println!("fresh engine depth {} -> {:?}", later, (r.0, r.1.map(|m| m.to_algebraic())));
+            std::process::exit(0);
+        }
         "run" => {}
         _ => usage(),
     }
